@@ -228,20 +228,37 @@ def check_bounded_calls(led, rule, fi, cfg, call_pred, what, stated, cls_methods
 def _heal_table(p, led, cl, heal):
     """feedback and outcome clauses of the healing loop, decided on every interpreted path (fdai): the generator
     returns anything, the validator accepts or rejects each attempt"""
-    from ..fdai import Interp, Obj, Unknown, PyRaise, explore, Imprecise, stub
+    from ..fdai import Interp, Obj, Unknown, PyRaise, ExcVal, explore, Imprecise, stub
     efp = p.cls("EnhancedFoldedProtein", "operon_ai/organelles/chaperone.py")
     probs = {"feedback": [], "valid": [], "exhausted": [], "calls": []}
     npaths = 0
-    for retries in (0, 1, 2, 3):
-        def go(o, _r=retries):
+    class _OverBudget(BaseException):
+        """the adversary was called beyond the stated budget: the run is cut here (it may never end otherwise)"""
+
+    def family(retries):
+        # the generator side of the adversarial family; the validator side (valid at attempt k, alternating, always
+        # invalid) is every accept/reject sequence, chosen by the oracle
+        fam = [("text", None), ("always-blank", None), ("always-raises", None)]
+        for k in range(retries + 1):
+            fam += [("blank-at", k), ("raises-at", k)]
+        return fam
+    for retries, (gbeh, gk) in [(r_, b_) for r_ in (0, 1, 2, 3) for b_ in family(r_)]:
+        def go(o, _r=retries, _gbeh=gbeh, _gk=gk):
             it = Interp(p, o)
             glog, folds = [], []
 
             @stub
             def generator(interp, args, kwargs):
                 ctx = args[1] if len(args) > 1 else kwargs.get("error_context")
+                i = len(glog)
                 glog.append(ctx)
-                return f"raw{len(glog) - 1}"
+                if len(glog) > _r + 1:
+                    raise _OverBudget()
+                if _gbeh == "always-raises" or (_gbeh == "raises-at" and i == _gk):
+                    raise PyRaise(ExcVal("RuntimeError", (f"generator failed at call {i}",)))
+                if _gbeh == "always-blank" or (_gbeh == "blank-at" and i == _gk):
+                    return ""
+                return f"raw{i}"
 
             def fold(interp, args, kwargs):
                 i = len(folds)
@@ -257,18 +274,27 @@ def _heal_table(p, led, cl, heal):
             try:
                 r = it.call_fi(heal, [loop, "the prompt"], {})
             except PyRaise as e:
-                return dict(raised=repr(e.exc))
+                return dict(raised=repr(e.exc), glog=glog, beh=_gbeh)
+            except _OverBudget:
+                return dict(over=True, glog=glog, beh=_gbeh)
             f = r.fields if isinstance(r, Obj) else {}
-            return dict(glog=glog, folds=folds, outcome=getattr(f.get("outcome"), "name", repr(f.get("outcome"))), folded=f.get("folded"), conf=f.get("final_confidence"), tagged=f.get("ubiquitin_tagged"))
+            return dict(glog=glog, folds=folds, beh=_gbeh, outcome=getattr(f.get("outcome"), "name", repr(f.get("outcome"))), folded=f.get("folded"), conf=f.get("final_confidence"), tagged=f.get("ubiquitin_tagged"))
         try:
             paths = [r for _, r in explore(go, max_paths=200)]
         except Imprecise as e:
             raise AnchorError(f"ChaperoneLoop.heal could not be interpreted: {e}")
         npaths += len(paths)
         for r in paths:
-            tag = f"max_retries={retries}"
+            tag = f"max_retries={retries}, generator {gbeh}{'' if gk is None else ' call ' + str(gk)}"
+            if "over" in r:
+                probs["calls"].append(f"{tag}: generator called more than {retries + 1} times")
+                continue
             if "raised" in r:
-                probs["calls"].append(f"{tag}: heal raises {r['raised']}")
+                if "raises" not in r["beh"]:
+                    probs["calls"].append(f"{tag}: heal raises {r['raised']}")
+                continue
+            if r["beh"] != "text":
+                # blank / raising generators: the call budget (above) is what the statement promises for them
                 continue
             n = len(r["glog"])
             if n > retries + 1:
@@ -304,45 +330,135 @@ def _heal_table(p, led, cl, heal):
         if mine:
             led.fail("C18-R1", title, where(heal, heal.node), mine[0], path=mine[:6])
         else:
-            led.ok("C18-R1", title, where(heal, heal.node), f"{npaths} path(s) over max_retries 0–3 × every valid/invalid sequence of attempts")
+            led.ok("C18-R1", title, where(heal, heal.node), f"{npaths} path(s) over max_retries 0–3 × every valid/invalid sequence of attempts × generators returning text, blank text (always / at call k) or raising (always / at call k)")
+    return not any(probs.values())
 
 
-def run(p, led, tier):
-    res = Resolver(p)
-    led.explanation = (
-        "Loop-variant analysis: each adversary call (generator, worker factory, worker step, provider tool round) "
-        "must sit in a single loop whose iteration count has a static affine bound — `for … in range(e)`, or a "
-        "counted `while c < e / c <= e` with c initialised to a constant, incremented on every CFG path back to the "
-        "test, written nowhere else, and e not assigned — with at most one call per iteration; the derived bound is "
-        "compared coefficient-wise with the stated one (smaller is fine). Def-use and dominance rules decide that "
-        "each retry is fed the previous attempt's error, that HEALED/VALID carry a structure whose validity was "
-        "tested, that the exhausted result is tagged with confidence 0 and no structure, that a swarm success "
-        "carries an output that passed the completion-marker test, and that exactly one plain completion follows the "
-        "tool loop.")
-    led.level = "proof"
-    led.assumptions = ["A3 generator / worker / provider are arbitrary (may return anything, may raise: raising ends the loop early)", "configuration limits are non-negative integers"]
-    led.rule("C18-R1", "healing loop: generator calls ≤ max_retries + 1; retry fed the previous error; HEALED/VALID ⇒ validated structure; exhausted ⇒ tagged, confidence 0, no structure", 4)
-    led.rule("C18-R2", "swarm: workers ≤ max_regenerations + 1; steps per worker ≤ max_steps_per_worker; success only with a completion marker", 3)
-    led.rule("C18-R3", "tool loop: provider tool rounds ≤ max_iterations, then exactly one plain completion", 2)
+def _swarm_table(p, led, sw, sup):
+    """budget and success clauses of the swarm, decided on every interpreted run of supervise() for regeneration limits
+    0..3 × step limits 0..3 against workers that never finish (never repeating an output), repeat one output, finish at
+    global step k, or raise at step k.  Workers are opaque records with a counted step(); the factory is counted."""
+    import hashlib
+    from ..fdai import Interp, Obj, Unknown, PyRaise, ExcVal, explore, Imprecise, stub
+    wm = p.find_cls("WorkerMemory", sw.module.rel) if hasattr(p, "find_cls") else None
+    if wm is None:
+        wm = next((ci for lst in p.classes.values() for ci in lst if ci.module.rel == sw.module.rel and ci.name == "WorkerMemory"), None)
+    markers = ("DONE",)
+    probs = {"spawn": [], "steps": [], "success": []}
+    nruns = 0
+    for regen in (0, 1, 2, 3):
+        for steps in (0, 1, 2, 3):
+            total = (regen + 1) * steps
+            behaviours = [("never", None), ("same", None)] + [("done", k) for k in range(total)] + [("raise", k) for k in range(0, total, max(1, steps))]
+            for beh, k in behaviours:
+                def go(o, _regen=regen, _steps=steps, _beh=beh, _k=k):
+                    it = Interp(p, o)
+                    spawned, per_worker, outs = [], {}, []
 
-    # ---------------- R1 heal
-    cl = p.cls("ChaperoneLoop", "operon_ai/healing/chaperone_loop.py")
-    heal = p.find_method(cl, "heal")
-    if heal is None:
-        raise AnchorError("ChaperoneLoop.heal not found")
-    cfg = cfg_of(heal, led)
-    check_bounded_calls(led, "C18-R1", heal, cfg, lambda c: is_self_attr(c.func, "generator"), "generator call", {"max_retries": 1, "": 1}, list(cl.methods.values()))
-    _heal_table(p, led, cl, heal)
+                    def md5(interp, args, kwargs):
+                        data = args[0] if args else b""
+                        if not isinstance(data, (bytes, str)):
+                            raise Imprecise("md5 of a non-literal")
+                        digest = hashlib.md5(data if isinstance(data, bytes) else data.encode()).hexdigest()
+                        return Obj(None, {"hexdigest": stub(lambda i_, a_, k_: digest)}, tag="md5")
+                    it.ext_stubs["hashlib.md5"] = md5
 
-    # ---------------- R2 swarm
-    sw = p.cls("RegenerativeSwarm", "operon_ai/healing/regenerative_swarm.py")
-    sup = p.find_method(sw, "supervise")
-    runw = p.find_method(sw, "_run_worker")
-    spawn = p.find_method(sw, "_spawn_worker")
-    if not (sup and runw and spawn):
-        raise AnchorError("RegenerativeSwarm.supervise/_run_worker/_spawn_worker not found")
+                    @stub
+                    def factory(interp, args, kwargs):
+                        name = args[0] if args else kwargs.get("name")
+                        wid = f"w{len(spawned)}"
+                        spawned.append(name)
+                        per_worker[wid] = 0
+
+                        @stub
+                        def step(interp2, a2, k2, _wid=wid):
+                            g = len(outs)
+                            per_worker[_wid] += 1
+                            if _beh == "raise" and g == _k:
+                                outs.append(None)
+                                raise PyRaise(ExcVal("RuntimeError", ("worker crashed",)))
+                            text = "stuck" if _beh == "same" else (f"all DONE at {g}" if (_beh == "done" and g == _k) else f"progress {g}")
+                            outs.append(text)
+                            return text
+                        mem = interp.instantiate(wm, [], {}) if wm is not None else Unknown("memory")
+                        return Obj(None, {"id": name if isinstance(name, str) else wid, "memory": mem, "step": step, "status": Unknown("status")}, tag=wid)
+
+                    @stub
+                    def summarizer(interp, args, kwargs):
+                        return ["hint"]
+                    swarm = it.instantiate(sw, [], dict(worker_factory=factory, summarizer=summarizer, max_steps_per_worker=_steps, max_regenerations=_regen, silent=True))
+                    try:
+                        r = it.call_fi(sup, [swarm, "the task"], {})
+                    except PyRaise as e:
+                        return dict(raised=repr(e.exc), spawned=len(spawned), per=dict(per_worker), outs=list(outs))
+                    f = r.fields if isinstance(r, Obj) else {}
+                    return dict(spawned=len(spawned), per=dict(per_worker), outs=list(outs), success=f.get("success"), output=f.get("output"), reported=f.get("total_workers_spawned"))
+                try:
+                    paths = [r for _, r in explore(go, max_paths=50)]
+                except Imprecise as e:
+                    if "iterations" in str(e):
+                        probs["spawn"].append(f"max_regenerations={regen}, max_steps_per_worker={steps}, worker {beh}{'' if k is None else '@' + str(k)}: supervise does not terminate ({e})")
+                        continue
+                    raise AnchorError(f"RegenerativeSwarm.supervise could not be interpreted: {e}")
+                for r in paths:
+                    nruns += 1
+                    tag = f"max_regenerations={regen}, max_steps_per_worker={steps}, worker {beh}{'' if k is None else '@' + str(k)}"
+                    if r["spawned"] > regen + 1:
+                        probs["spawn"].append(f"{tag}: {r['spawned']} workers spawned")
+                    over = {w: n for w, n in r["per"].items() if n > steps}
+                    if over:
+                        probs["steps"].append(f"{tag}: steps per worker {r['per']}")
+                    if "raised" in r:
+                        continue        # an escaping exception ends the loop: the budgets above are what the property states
+                    marked = [t for t in r["outs"] if isinstance(t, str) and any(m in t.upper() for m in markers)]
+                    if r["success"] is True or (r["success"] is not False and r["success"] is not None):
+                        if not (isinstance(r["output"], str) and r["output"] in marked):
+                            probs["success"].append(f"{tag}: success={r['success']!r} reported with output {r['output']!r}, which carries no completion marker")
+    titles = {"spawn": "RegenerativeSwarm.supervise ▸ workers spawned within max_regenerations + 1 on every interpreted run",
+              "steps": "RegenerativeSwarm.supervise ▸ steps per worker within max_steps_per_worker on every interpreted run",
+              "success": "RegenerativeSwarm.supervise ▸ success only for an output carrying a completion marker"}
+    ok_all = True
+    for kk, title in titles.items():
+        mine = sorted(set(probs[kk]))
+        if mine:
+            ok_all = False
+            led.fail("C18-R2", title, where(sup, sup.node), mine[0] + (f" (+{len(mine) - 1} more)" if len(mine) > 1 else ""), witness=mine[0])
+        else:
+            led.ok("C18-R2", title, where(sup, sup.node), f"{nruns} interpreted runs: limits 0–3 × 0–3, workers never finishing / repeating / finishing at step k / raising at step k")
+    return ok_all
+
+
+def _loop_host(res, entry, pred):
+    """(function, call predicate) for the counted loop around an adversary call: the entry itself when the call sits in
+    one of its loops, otherwise the entry with calls to the helper that makes the adversary call (once, outside any loop
+    of its own) standing for it"""
+    def direct(fn):
+        return [c for c in walk_no_nested(fn.node) if isinstance(c, ast.Call) and pred(c)]
+    if direct(entry) and any(_enclosing_loop(c, entry.node) is not None for c in direct(entry)):
+        return entry, pred
+    for g in res.reachable_from(entry):
+        if g is entry or g.cls is not entry.cls:
+            continue
+        dc = direct(g)
+        if not dc:
+            continue
+        if any(_enclosing_loop(c, g.node) is not None for c in dc):
+            return g, pred
+        if len(dc) == 1:
+            wrapper_calls = lambda c, _g=g: any(t is _g for t in res.resolve_call(entry, c))      # noqa: E731
+            wc = [c for c in walk_no_nested(entry.node) if isinstance(c, ast.Call) and wrapper_calls(c)]
+            if wc and any(_enclosing_loop(c, entry.node) is not None for c in wc):
+                return entry, wrapper_calls
+    return None
+
+
+def _swarm_structural(p, led, res, sw, sup):
     scfg = cfg_of(sup, led)
     methods = list(sw.methods.values())
+    runw = p.find_method(sw, "_run_worker")
+    spawn = p.find_method(sw, "_spawn_worker")
+    if not (runw and spawn):
+        raise AnchorError("RegenerativeSwarm._run_worker/_spawn_worker not found")
     # spawn calls in supervise (each spawns exactly one worker: factory called once, not in a loop, in _spawn_worker)
     check_bounded_calls(led, "C18-R2", sup, scfg, lambda c: is_self_attr(c.func, "_spawn_worker") or is_self_attr(c.func, "worker_factory"), "worker spawn", {"max_regenerations": 1, "": 1}, methods)
     spcfg = cfg_of(spawn, led)
@@ -410,6 +526,55 @@ def run(p, led, tier):
     iss = p.find_method(sw, "_is_success")
     if iss is None:
         raise AnchorError("RegenerativeSwarm._is_success not found")
+
+
+
+def run(p, led, tier):
+    res = Resolver(p)
+    led.explanation = (
+        "Loop-variant analysis: each adversary call (generator, worker factory, worker step, provider tool round) "
+        "must sit in a single loop whose iteration count has a static affine bound — `for … in range(e)`, or a "
+        "counted `while c < e / c <= e` with c initialised to a constant, incremented on every CFG path back to the "
+        "test, written nowhere else, and e not assigned — with at most one call per iteration; the derived bound is "
+        "compared coefficient-wise with the stated one (smaller is fine). Def-use and dominance rules decide that "
+        "each retry is fed the previous attempt's error, that HEALED/VALID carry a structure whose validity was "
+        "tested, that the exhausted result is tagged with confidence 0 and no structure, that a swarm success "
+        "carries an output that passed the completion-marker test, and that exactly one plain completion follows the "
+        "tool loop.")
+    led.level = "proof"
+    led.assumptions = ["A3 generator / worker / provider are arbitrary (may return anything, may raise: raising ends the loop early)", "configuration limits are non-negative integers"]
+    led.rule("C18-R1", "healing loop: generator calls ≤ max_retries + 1; retry fed the previous error; HEALED/VALID ⇒ validated structure; exhausted ⇒ tagged, confidence 0, no structure", 4)
+    led.rule("C18-R2", "swarm: workers ≤ max_regenerations + 1; steps per worker ≤ max_steps_per_worker; success only with a completion marker", 3)
+    led.rule("C18-R3", "tool loop: provider tool rounds ≤ max_iterations, then exactly one plain completion", 2)
+
+    # ---------------- R1 heal
+    cl = p.cls("ChaperoneLoop", "operon_ai/healing/chaperone_loop.py")
+    heal = p.find_method(cl, "heal")
+    if heal is None:
+        raise AnchorError("ChaperoneLoop.heal not found")
+    heal_ok = _heal_table(p, led, cl, heal)
+    # structural bound for *every* value of the limit, on whichever function below heal hosts the generator call
+    cled = led.corroborating(heal_ok, "the interpreted healing table (limits 0–3)")
+
+    def heal_structural():
+        is_gen = lambda c: is_self_attr(c.func, "generator")      # noqa: E731
+        host = _loop_host(res, heal, is_gen)
+        if host is None:
+            led.info("no function below heal calls the generator inside a loop construct: the bound is decided for limits 0–3 by the interpreted table only")
+            cled.undecided("C18-R1", "ChaperoneLoop.heal ▸ generator call", where(heal, heal.node), "no counted loop around the generator call was recognised; decided by the interpreted table")
+            return
+        fn, pred = host
+        check_bounded_calls(cled, "C18-R1", fn, cfg_of(fn, led), pred, "generator call", {"max_retries": 1, "": 1}, list(cl.methods.values()))
+    cled.run_section(("C18-R1",), heal_structural, "operon_ai/healing/chaperone_loop.py")
+
+    # ---------------- R2 swarm
+    sw = p.cls("RegenerativeSwarm", "operon_ai/healing/regenerative_swarm.py")
+    sup = p.find_method(sw, "supervise")
+    if sup is None:
+        raise AnchorError("RegenerativeSwarm.supervise not found")
+    swarm_ok = _swarm_table(p, led, sw, sup)
+    sled = led.corroborating(swarm_ok, "the interpreted swarm table (limits 0–3 × 0–3)")
+    sled.run_section(("C18-R2",), lambda: _swarm_structural(p, sled, res, sw, sup), "operon_ai/healing/regenerative_swarm.py")
 
     # ---------------- R3 tool loop
     nuc = p.cls("Nucleus", "operon_ai/organelles/nucleus.py")
